@@ -208,6 +208,79 @@ def h_analyze(family="fixed2", vec="default", timeout=200, part=None, **kw):
                          timeout, concretize=conc, shims={"namespace_shims": shims}, part=part, int_lo=-4, int_hi=6)
 
 
+def _mk_lines(chars, vertical, word_margin=0.1):
+    from pdfminer.layout import LTTextLineHorizontal, LTTextLineVertical
+    lines = []
+    for c in chars:
+        l = (LTTextLineVertical if vertical else LTTextLineHorizontal)(word_margin)
+        l.add(c)
+        lines.append(l)
+    return lines
+
+
+def _walk_boxes(boxes, lines):
+    """concrete check used by the replay: conservation, bbox union, order, line breaks, concatenation"""
+    from pdfminer.layout import LTTextBoxVertical, LTAnno, LTText
+    got = [l for b in boxes for l in b]
+    if sorted(map(id, got)) != sorted(map(id, lines)):
+        return "%d lines in the boxes for %d lines given (lost or duplicated)" % (len(got), len(lines))
+    for b in boxes:
+        ms = list(b)
+        bb = (min(m.x0 for m in ms), min(m.y0 for m in ms), max(m.x1 for m in ms), max(m.y1 for m in ms))
+        if tuple(b.bbox) != bb:
+            return "box %r is not the union %r of its lines" % (b.bbox, bb)
+        key = [l.x1 for l in b] if isinstance(b, LTTextBoxVertical) else [l.y1 for l in b]
+        if any(a < c for a, c in zip(key, key[1:])):
+            return "lines of a %s box are not ordered %s: %r" % ("vertical" if isinstance(b, LTTextBoxVertical) else "horizontal", "right to left" if isinstance(b, LTTextBoxVertical) else "top to bottom", key)
+        for l in b:
+            objs = list(l)
+            if not (isinstance(objs[-1], LTAnno) and objs[-1].get_text() == "\n"):
+                return "line without line break"
+        if b.get_text() != "".join(m.get_text() for m in b if isinstance(m, LTText)):
+            return "text of a box is not the concatenation of its lines"
+    return None
+
+
+def h2_boxes(n=2, vec="default", timeout=200, part=None, size=10, **kw):
+    """second stage alone: n one-glyph text lines of one orientation (symbolic choice) with symbolic boxes -> group_textlines + analyze of every box: each line sits in exactly
+    one box, box = union of its lines, lines ordered top-to-bottom (right-to-left in vertical boxes), line breaks, concatenation"""
+    shims = setup()
+    import pdfminer.layout as lt
+    from pdfminer.layout import LAParams
+
+    def fn(ex):
+        vertical = ex.choice(2, "vertical") == 1
+        chars = [mkchar(ex, "c%d" % i, "abc"[i], 0, 40, size=size) for i in range(n)]
+        lines = _mk_lines(chars, vertical)
+        la = LAParams(**VECS[vec])
+        cont = lt.LTLayoutContainer((0, 0, 50, 50))
+        info = {"vertical": vertical, "vec": vec, "chars": [(c.get_text(), c.x0, c.y0, c.x1, c.y1) for c in chars]}
+        try:
+            boxes = list(cont.group_textlines(la, lines))
+            for b in boxes:
+                b.analyze(la)
+        except symx.Violation:
+            raise
+        except Exception as e:
+            ex.require(False, "group_textlines / analyze raised %s: %s" % (type(e).__name__, e), **info)
+        got = [l for b in boxes for l in b]
+        ex.require(sorted(map(id, got)) == sorted(map(id, lines)), "%d lines in the boxes for %d lines given (lost or duplicated)" % (len(got), len(lines)), **info)
+        ex.require(all(isinstance(b, lt.LTTextBoxVertical if vertical else lt.LTTextBoxHorizontal) for b in boxes), "box orientation differs from its lines", **info)
+        conj, problems = [], []
+        for b in boxes:
+            tree_formula(b, conj, problems)
+        ex.require(not problems, "; ".join(problems), **info)
+        ex.require(SB(z3.And(conj)) if conj else True, "a box is not the union of its lines, or its lines are not ordered top-to-bottom / right-to-left", **info)
+
+    def conc(m, info):
+        return {"vertical": info["vertical"], "vec": info["vec"], "chars": [(t,) + tuple(symx.mval(m, v) for v in bb) for (t, *bb) in info["chars"]]}
+    L = lt.LTLayoutContainer
+    return core.run_symx("H2_boxes", fn, [L.group_textlines, lt.LTTextBoxHorizontal.analyze, lt.LTTextBoxVertical.analyze, lt.LTTextLineHorizontal.find_neighbors, lt.LTTextLineVertical.find_neighbors,
+                                          lt.LTTextLine.analyze],
+                         {"lines": "%d, one glyph each, horizontal or vertical, symbolic position in [0,40], size %s" % (n, "symbolic in (0,20]" if size is None else "%d x %d" % (size, size)), "laparams": VECS[vec] or "defaults"},
+                         timeout, concretize=conc, shims={"namespace_shims": shims}, part=part, int_lo=-4, int_hi=6)
+
+
 def build_page(chars):
     from pdfminer.layout import LTPage, LTChar, LTRect
     pg = LTPage(1, (0, 0, 50, 50))
@@ -232,6 +305,25 @@ def build_page(chars):
 
 def replay(harness, inp):
     from pdfminer.layout import LAParams, LTTextBox, LTTextLine, LTTextGroup, LTComponent, LTAnno, LTText, LTTextBoxHorizontal, LTTextBoxVertical
+    if harness == "H2_boxes":
+        import pdfminer.layout as lt
+        chars = []
+        for (t, x0, y0, x1, y1) in inp["chars"]:
+            c = lt.LTChar.__new__(lt.LTChar)
+            c.set_bbox((x0, y0, x1, y1))
+            c._text, c.size, c.upright, c.fontname, c.adv, c.matrix = t, y1 - y0, True, "F", x1 - x0, (1, 0, 0, 1, x0, y0)
+            chars.append(c)
+        lines = _mk_lines(chars, inp["vertical"])
+        la = LAParams(**VECS[inp["vec"]])
+        desc = "%s one-glyph lines (text,x0,y0,x1,y1) %r, LAParams(%r)" % ("vertical" if inp["vertical"] else "horizontal", [(c[0],) + tuple(float(v) for v in c[1:]) for c in inp["chars"]], VECS[inp["vec"]])
+        try:
+            boxes = list(lt.LTLayoutContainer((0, 0, 50, 50)).group_textlines(la, lines))
+            for b in boxes:
+                b.analyze(la)
+        except Exception as e:
+            return "%s: group_textlines / analyze raised %r" % (desc, e)
+        r = _walk_boxes(boxes, lines)
+        return None if r is None else "%s: %s" % (desc, r)
     pg, items = build_page(inp["chars"])
     try:
         pg.analyze(LAParams(**VECS[inp["vec"]]))
@@ -278,7 +370,10 @@ def replay(harness, inp):
 
 
 def jobs(tier):
-    J = []
+    J = [Job("H2_boxes:2:%s:%d" % (vec, k), "h2_boxes", {"n": 2, "vec": vec, "part": [k, 2, 6]}, 300, "H2_boxes") for vec in ("default", "big") for k in range(2)]
+    if tier != "quick":
+        J += [Job("H2_boxes:2g:%s:%d" % (vec, k), "h2_boxes", {"n": 2, "vec": vec, "size": None, "part": [k, 8, 10]}, 1800, "H2_boxes") for vec in ("default", "big") for k in range(8)]
+        J += [Job("H2_boxes:3:%s:%d" % (vec, k), "h2_boxes", {"n": 3, "vec": vec, "part": [k, 8, 10]}, 1800, "H2_boxes") for vec in ("default", "big") for k in range(8)]
     if tier == "quick":
         for vec in ("default", "none", "vert", "neg"):
             for k in range(3):
